@@ -76,11 +76,11 @@ Section MergeLive.
     apply (next_result mst m_n m_awaited (fun _ i => i) m_handle true true m_order m_pre_exit (fun _ => false) m_finish (fun s => s)
              (fun s => drop_all_children (m_n s)) m_final m_Q M1 M2 M3 M4 M5 M6 M7 M8 M9 M10 M11 M12 M13 M14
              (fun _ => eq_refl) (fun _ _ _ => eq_refl) (fun _ H => H) (fun _ => eq_refl) (fun _ _ _ => eq_refl) (fun _ H => H)
-             mmut (fun w _ _ _ H => H) (fun _ _ => eq_refl) m_abort_panic TSm TSm USm_cont TSm_order (fun s _ H _ => H) (fun _ s H => H) TSm_order_some).
+             mmut (fun w _ _ _ H => H) (fun _ _ => true) (fun _ _ _ _ _ => eq_refl) (fun _ _ _ _ _ _ _ _ H => H) m_n (fun _ _ _ H _ => H) (fun s i a _ _ _ => conj (M1 s i a) (fun _ _ _ => conj eq_refl eq_refl)) (fun s is s1 _ E => conj (M10 s is s1 E) (fun _ _ _ => conj eq_refl eq_refl)) (fun s _ => conj (eq_refl) (fun _ _ _ => conj eq_refl eq_refl)) (fun s _ => conj eq_refl (fun _ _ _ => conj eq_refl eq_refl)) m_abort_panic (fun a => a <> APanic) (fun _ H => H) APend_not_panic TSm TSm (fun s i a s' e _ _ _ => USm_cont s i a s' e) TSm_order (fun s _ H _ => H) (fun _ s H => H) TSm_order_some).
     - apply merge_init.
     - split; [reflexivity|]. split; [exact Hnp|].
       unfold HT, N, m_n, polled. cbn. rewrite !repeat_length. split; [reflexivity|]. split; [reflexivity|].
-      intros c Hc. rewrite !repeat_nth by exact Hc. split; [intros h []|discriminate].
+      intros c Hc _. rewrite !repeat_nth by exact Hc. split; [intros h []|discriminate].
     - unfold TSm, m_n. cbn. rewrite repeat_length, count_none_repeat. split; [exact Hn|reflexivity].
     - reflexivity.
     - reflexivity.
@@ -100,16 +100,17 @@ Section MergeLive.
   Qed.
   (* ... and from every reachable state: after ANY history, as long as the merge has not ended, has not been dropped and some input is still
      alive, the wake-driven executor obtains the next result within (longest remaining script) rounds *)
-  Lemma merge_LiveI_run ops : LiveI mst m_n (mrun w0 ops).
+  Lemma merge_LiveI_run ops : LiveI mst m_n (fun _ i => i) (fun _ _ => true) m_n (fun a => a <> APanic) (mrun w0 ops).
   Proof.
     apply (LiveI_run mst m_n m_awaited (fun _ i => i) m_handle true true m_order m_pre_exit (fun _ => false) m_finish (fun s => s)
              (fun s => drop_all_children (m_n s)) m_final m_Q M1 M2 M3 M4 M5 M6 M7 M8 M9 M10 M11 M12 M13 M14
              (fun _ => eq_refl) (fun _ _ _ => eq_refl) (fun _ H => H) (fun _ => eq_refl) (fun _ _ _ => eq_refl) (fun _ H => H)
-             mmut (fun w _ _ _ H => H) (fun _ _ => eq_refl) m_abort_panic TSm USm_cont (fun _ _ _ _ => eq_refl)).
+             mmut (fun w _ _ _ H => H) (fun _ _ => true) (fun _ _ _ _ _ => eq_refl) (fun _ _ _ _ _ _ _ _ H => H) m_n (fun _ _ _ H _ => H) (fun s i a _ _ _ => conj (M1 s i a) (fun _ _ _ => conj eq_refl eq_refl)) (fun s is s1 _ E => conj (M10 s is s1 E) (fun _ _ _ => conj eq_refl eq_refl)) (fun s _ => conj (eq_refl) (fun _ _ _ => conj eq_refl eq_refl)) (fun s _ => conj eq_refl (fun _ _ _ => conj eq_refl eq_refl)) m_abort_panic (fun a => a <> APanic) (fun _ H => H) APend_not_panic TSm (fun s i a s' e _ _ _ => USm_cont s i a s' e) (fun _ => True) (fun w _ _ _ _ H _ => H)).
     - apply merge_init.
     - split; [reflexivity|]. split; [exact Hnp|].
       unfold HT, N, m_n, polled. cbn. rewrite !repeat_length. split; [reflexivity|]. split; [reflexivity|].
-      intros c Hc. rewrite !repeat_nth by exact Hc. split; [intros h []|discriminate].
+      intros c Hc _. rewrite !repeat_nth by exact Hc. split; [intros h []|discriminate].
+    - apply Forall_forall. intros o _. destruct o; exact I.
   Qed.
   Lemma merge_Inv_run ops : Inv mst m_n m_awaited m_Q (mrun w0 ops).
   Proof.
@@ -131,7 +132,7 @@ Section MergeLive.
     apply (next_result mst m_n m_awaited (fun _ i => i) m_handle true true m_order m_pre_exit (fun _ => false) m_finish (fun s => s)
              (fun s => drop_all_children (m_n s)) m_final m_Q M1 M2 M3 M4 M5 M6 M7 M8 M9 M10 M11 M12 M13 M14
              (fun _ => eq_refl) (fun _ _ _ => eq_refl) (fun _ H => H) (fun _ => eq_refl) (fun _ _ _ => eq_refl) (fun _ H => H)
-             mmut (fun w _ _ _ H => H) (fun _ _ => eq_refl) m_abort_panic TSm TSm USm_cont TSm_order (fun s _ H _ => H) (fun _ s H => H) TSm_order_some).
+             mmut (fun w _ _ _ H => H) (fun _ _ => true) (fun _ _ _ _ _ => eq_refl) (fun _ _ _ _ _ _ _ _ H => H) m_n (fun _ _ _ H _ => H) (fun s i a _ _ _ => conj (M1 s i a) (fun _ _ _ => conj eq_refl eq_refl)) (fun s is s1 _ E => conj (M10 s is s1 E) (fun _ _ _ => conj eq_refl eq_refl)) (fun s _ => conj (eq_refl) (fun _ _ _ => conj eq_refl eq_refl)) (fun s _ => conj eq_refl (fun _ _ _ => conj eq_refl eq_refl)) m_abort_panic (fun a => a <> APanic) (fun _ H => H) APend_not_panic TSm TSm (fun s i a s' e _ _ _ => USm_cont s i a s' e) TSm_order (fun s _ H _ => H) (fun _ s H => H) TSm_order_some).
     - apply merge_Inv_run.
     - apply merge_LiveI_run.
     - split; [rewrite Hmn; exact Hc|exact Hcn].
